@@ -466,6 +466,22 @@ class Compiler(object):
                             member['default'] = value
                             break
 
+                if (resolved_member['type'] == 'ENUMERATED'
+                    and not self._numeric_enums
+                    and isinstance(member['default'], int)):
+                    # The specification was compiled with numeric
+                    # enums before; restore the name.
+                    for item in resolved_member['values']:
+                        if item == EXTENSION_MARKER:
+                            continue
+
+                        key, value = item
+
+                        if (value == member['default']
+                            and isinstance(value, int)):
+                            member['default'] = key
+                            break
+
     def pre_process_default_value_bit_string(self, member, resolved_member):
         default = member['default']
 
